@@ -19,7 +19,7 @@ pub fn format(case: &DocCase, text: &str) -> String {
         }
         _ => {
             let mut lib = api::Lib::new();
-            lib.insert("doc".into(), "# old title\n\nold text\n".to_string());
+            lib.insert("doc".into(), case.prev.clone());
             api::format_via_update(&lib, "doc", text, &case.ext)
         }
     }
@@ -76,6 +76,6 @@ impl Property for C02 {
         Verdict::Pass { nontrivial: y1 != case.text && st.blocks >= 3 }
     }
     fn sample(&self, case: &DocCase) -> serde_json::Value {
-        serde_json::json!({"text": case.text, "ext": case.ext, "door": case.door})
+        serde_json::json!({"text": case.text, "ext": case.ext, "door": case.door, "prev": case.prev})
     }
 }
